@@ -44,11 +44,15 @@ func (x *Exec) sliceElem(st *State, s, i Term, el types.Type) Term {
 	asort := SArr(SInt, SArr(x.idxSort(), x.sortOf(el)))
 	arr := x.heapGet(st, x.elemsArr(el), asort)
 	rowSort := SArr(x.idxSort(), x.sortOf(el))
+	// the view is a function of the backing row and the offset (not of the
+	// whole heap array), so that a write to another backing array leaves the
+	// very same view term (modulo congruence) and quantified facts about the
+	// slice keep matching
 	name := "slrow!" + typeName(el) + "!" + string(x.sortOf(el))
-	row := x.d.Fun(name, []Sort{asort, SInt}, rowSort)
-	a, sv, k := Term{"a!r", asort}, Term{"s!r", SInt}, Term{"k!r", x.idxSort()}
-	x.d.Axiom(Forall([]Term{a, sv, k}, Eq(Select(row(a, sv), k), Select(Select(a, x.slBase(sv)), Add(x.slOff(sv), k))), []Term{Select(row(a, sv), k)}))
-	return Select(row(arr, s), i)
+	row := x.d.Fun(name, []Sort{rowSort, x.idxSort()}, rowSort)
+	r, o, k := Term{"r!r", rowSort}, Term{"o!r", x.idxSort()}, Term{"k!r", x.idxSort()}
+	x.d.Axiom(Forall([]Term{r, o, k}, Eq(Select(row(r, o), k), Select(r, Add(o, k))), []Term{Select(row(r, o), k)}))
+	return Select(row(Select(arr, x.slBase(s)), x.slOff(s)), i)
 }
 
 func (x *Exec) boundsCheck(cfg *Config, i, n Term, what string, pos token.Pos) {
@@ -220,10 +224,8 @@ func (x *Exec) appendOp(cfg *Config, args []Val, sig *types.Signature, pos token
 	row := x.d.Fresh("approw", rowSort)
 	k := Term{"k", x.idxSort()}
 	z := x.intLit(0, x.idxSort())
-	oldRow := Select(arr, x.slBase(s))
-	tRow := Select(arr, x.slBase(t))
 	st.assume(Forall([]Term{k}, Eq(Select(row, k),
-		Ite(Lt(k, n), Select(oldRow, Add(x.slOff(s), k)), Select(tRow, Add(x.slOff(t), Sub(k, n))))), []Term{Select(row, k)}))
+		Ite(Lt(k, n), x.sliceElem(st, s, k, el), x.sliceElem(st, t, Sub(k, n), el))), []Term{Select(row, k)}))
 	st.heap[name] = Store(arr, base, row)
 	cp := x.d.Fresh("cap", x.idxSort())
 	st.assume(Ge(cp, newLen))
